@@ -18,6 +18,7 @@ INVARIANT InvPow
 INVARIANT InvPow2
 INVARIANT InvChain
 INVARIANT InvGroupFlat
+INVARIANT InvNear
 INVARIANT InvScaled
 INVARIANT InvSrc
 INVARIANT InvScopeConfigured
